@@ -18,11 +18,116 @@ class AnalysisError(Exception):
     """The analysis could not be completed (anchor vanished, unparsable source, ...): exit 2, never a verdict."""
 
 
+class _Normalise(ast.NodeTransformer):
+    """Semantics-preserving canonical forms applied to every module before any rule looks at it, so that rules do not depend on
+    incidental statement shapes:
+      N0  `pass` in a body that has other statements is dropped;
+      N1  `X = e` immediately followed by `return X`, X not mentioned anywhere else in the function  ->  `return e`;
+      N2  `if not c: A else: B` (no elif)  ->  `if c: B else: A`;
+      N3  operands of a single `==` / `!=` in canonical order (constant on the right, otherwise by source text).
+    Line numbers of the surviving nodes are the original ones."""
+
+    def __init__(self):
+        self.fn_stack = []
+
+    def _counts(self, fn):
+        c = {}
+        for n in ast.walk(fn):
+            if isinstance(n, ast.Name):
+                c[n.id] = c.get(n.id, 0) + 1
+            elif isinstance(n, (ast.Global, ast.Nonlocal)):
+                for x in n.names:
+                    c[x] = c.get(x, 0) + 10
+        return c
+
+    @staticmethod
+    def _is_pair(s, nxt):
+        return (isinstance(s, ast.Assign) and len(s.targets) == 1 and isinstance(s.targets[0], ast.Name) and isinstance(nxt, ast.Return)
+                and isinstance(nxt.value, ast.Name) and nxt.value.id == s.targets[0].id)
+
+    def _inlinable(self, fn):
+        counts = self._counts(fn)
+        pairs = {}
+        for n in ast.walk(fn):
+            for field in ('body', 'orelse', 'finalbody'):
+                b = getattr(n, field, None)
+                if isinstance(b, list):
+                    b = [x for x in b if not isinstance(x, ast.Pass)]
+                    for a, c in zip(b, b[1:]):
+                        if self._is_pair(a, c):
+                            pairs[a.targets[0].id] = pairs.get(a.targets[0].id, 0) + 1
+        return {x for x, k in pairs.items() if counts.get(x, 0) == 2 * k}
+
+    def visit_FunctionDef(self, fn):
+        self.fn_stack.append(self._inlinable(fn))
+        self.generic_visit(fn)
+        self.fn_stack.pop()
+        return fn
+
+    visit_AsyncFunctionDef = visit_FunctionDef
+
+    def _body(self, body):
+        if not isinstance(body, list) or not body or not isinstance(body[0], ast.stmt):
+            return body
+        out = [s for s in body if not isinstance(s, ast.Pass)] or body[:1]
+        if self.fn_stack:
+            counts = self.fn_stack[-1]
+            res = []
+            i = 0
+            while i < len(out):
+                s = out[i]
+                nxt = out[i + 1] if i + 1 < len(out) else None
+                if self._is_pair(s, nxt) and s.targets[0].id in counts:
+                    r = ast.Return(value=s.value)
+                    ast.copy_location(r, s)
+                    r.end_lineno = getattr(s, 'end_lineno', s.lineno)
+                    res.append(r)
+                    i += 2
+                    continue
+                res.append(s)
+                i += 1
+            out = res
+        return out
+
+    def generic_visit(self, node):
+        super().generic_visit(node)
+        for field in ('body', 'orelse', 'finalbody'):
+            b = getattr(node, field, None)
+            if isinstance(b, list):
+                setattr(node, field, self._body(b))
+        if isinstance(node, ast.Try):
+            for h in node.handlers:
+                h.body = self._body(h.body)
+        return node
+
+    def visit_Compare(self, n):
+        self.generic_visit(n)
+        if len(n.ops) == 1 and isinstance(n.ops[0], (ast.Eq, ast.NotEq)):
+            l, r = n.left, n.comparators[0]
+            lc, rc = isinstance(l, ast.Constant), isinstance(r, ast.Constant)
+            if (lc and not rc) or (not lc and not rc and ast.unparse(l) > ast.unparse(r)):
+                n.left, n.comparators = r, [l]
+        return n
+
+    def visit_If(self, n):
+        self.generic_visit(n)
+        if (isinstance(n.test, ast.UnaryOp) and isinstance(n.test.op, ast.Not) and n.orelse
+                and not (len(n.orelse) == 1 and isinstance(n.orelse[0], ast.If))):
+            n.test, n.body, n.orelse = n.test.operand, n.orelse, n.body
+        return n
+
+
+def normalise(tree):
+    tree = _Normalise().visit(tree)
+    ast.fix_missing_locations(tree)
+    return tree
+
+
 class Mod:
     def __init__(self, name, path, src, is_pkg):
         self.name, self.path, self.src, self.is_pkg = name, path, src, is_pkg
         try:
-            self.tree = ast.parse(src, path)
+            self.tree = normalise(ast.parse(src, path))
         except SyntaxError as e:
             raise AnalysisError(f'syntax error in {path}: {e}')
         self.globals = {}
